@@ -24,7 +24,7 @@ From ClapModel Require Import Base.Bytes Base.Machine Base.Utf8.
 From ClapModel Require Import Parse.Matcher Parse.Errors Parse.Validator Parse.Parser.
 From ClapModel Require Import ParseProofs.Spelling ParseProofs.ErrorSound.
 From ClapModel Require Import Parse.Cmd Parse.Build Parse.Valid Complete.EngineModel Complete.EngineProofs.
-From ClapModel Require Import Complete.EngineAccept.
+From ClapModel Require Import Complete.EngineAccept Complete.EngineFuel Complete.EngineComplete.
 From ClapModel Require Gen.EngineSites.
 From Coq Require Import ZArith.
 Open Scope N_scope.
@@ -149,7 +149,7 @@ Print Assumptions C18_accept_long_step.
     ([cluster_ok]; a single [-x] is the one-letter case): [parse_short_arg] reacts to every flag and
     starts the occurrence of [a] *)
 Theorem C18_accept_cluster_step : forall c a r rest pos vaf st,
-  cluster_ok c r a -> hd 0 r <> Parser.DASH ->
+  cluster_ok c r a -> List.hd 0 r <> Parser.DASH ->
   possible_subcommand c (Parser.DASH :: r) vaf = None -> fs_skip st = 0 ->
   (match get_pos c pos with Some p => a_negnum p | None => false end && Parser.sf_is_negative_number r) = false ->
   parse_loop c ((Parser.DASH :: r) :: rest) (mkL PSValuesDone pos vaf false) st =
@@ -214,3 +214,109 @@ Theorem C18_subcommand_candidate_accepted : forall tbl w cur pi l cd n pc,
        else ROk (LSub n' false vaf st rest)).
 Proof. exact subcommand_candidate_accepted. Qed.
 Print Assumptions C18_subcommand_candidate_accepted.
+
+(** * Round 2: totality without a fuel gap *)
+
+(** [Command::build] of the model never runs out of fuel: [depth c + 1] units suffice for every command
+    (the expanded help tree below a level is as deep as the level itself), a fortiori [2*depth+4] *)
+Theorem C18_build_full_enough : forall f c, (depth c + 1 <= f)%nat -> build_full f c <> BFuel.
+Proof. exact build_full_enough. Qed.
+Print Assumptions C18_build_full_enough.
+
+Theorem C18_build_no_fuel : forall c, build_full (build_fuel c) c <> BFuel.
+Proof. exact build_no_fuel. Qed.
+Print Assumptions C18_build_no_fuel.
+
+(** ... so the whole model never answers "out of fuel" (with C18_total: candidates, the plain
+    "no completion" error, or a command rejected by clap's own debug assertions - nothing else) *)
+Theorem C18_model_no_fuel : forall tbl c args i, complete_model tbl c args i <> CFuel.
+Proof. exact model_no_fuel. Qed.
+Print Assumptions C18_model_no_fuel.
+
+(** * Round 2: completeness for short options and for possible values *)
+
+(** every visible argument with a short name is represented (by its id, visibly) after the empty word,
+    [-], and every well-formed cluster [-xyz] of flags none of which takes a value ([short_word]);
+    [short_spelling a s]: [s] is the short name or a visible short alias of [a] *)
+Theorem C18_complete_shorts : forall tbl w c pi l a s,
+  complete_arg tbl w c pi ValueDone = COk l ->
+  In a (c_args c) -> a_hide a = false -> short_spelling a s -> short_word c w ->
+  exists y, In y l /\ cd_id y = Some (IdArg (a_id a)) /\ cd_hidden y = false.
+Proof. exact value_done_complete_short. Qed.
+Print Assumptions C18_complete_shorts.
+
+(** an option awaits a value (state [Opt o cnt], minimum not yet reached): every candidate is a DECLARED
+    possible value of [o] with its declared hidden flag, behind the already typed [a,b,] prefix, and
+    extends the word *)
+Theorem C18_value_candidates_sound : forall tbl w c pi o cnt l y,
+  complete_arg tbl w c pi (Opt o cnt) = COk l -> (opt_min o <? cnt) = false -> In y l ->
+  cd_id y = None /\ is_prefix w (cd_value y) = true /\
+  exists pre v pvs, possible_values tbl o = Some (Some pvs) /\ In (v, cd_hidden y) pvs /\ cd_value y = pre ++ v.
+Proof. exact opt_state_sound_values. Qed.
+Print Assumptions C18_value_candidates_sound.
+
+(** ... in any [Opt] state a candidate is a value candidate of [o] or (minimum reached) a candidate of
+    the state [ValueDone] *)
+Theorem C18_value_candidates_origin : forall tbl w c pi o cnt l y,
+  complete_arg tbl w c pi (Opt o cnt) = COk l -> In y l ->
+  (exists lv, complete_arg_value tbl w o = Some lv /\ In y lv) \/
+  ((opt_min o <? cnt) = true /\ exists more, complete_arg_value_done tbl w c pi = COk more /\ In y more).
+Proof. exact opt_state_sound_gen. Qed.
+Print Assumptions C18_value_candidates_origin.
+
+(** ... and every visible declared value extending the last element of the word is offered, with the
+    delimiter prefix kept ([a,b,<TAB>] -> [a,b,value]) *)
+Theorem C18_value_candidates_complete : forall tbl w c pi o cnt l pvs v pre v0,
+  complete_arg tbl w c pi (Opt o cnt) = COk l ->
+  possible_values tbl o = Some (Some pvs) -> In (v, false) pvs ->
+  utf8_valid v0 = true -> is_prefix v0 v = true ->
+  (pre = [] /\ v0 = w /\ rsplit_delimiter w (a_delim o) = None
+   \/ rsplit_delimiter w (a_delim o) = Some (pre, v0)) ->
+  In (mkCand (pre ++ v) None false) l.
+Proof. exact opt_state_complete. Qed.
+Print Assumptions C18_value_candidates_complete.
+
+(** the delimiter-prefix form: the split is after the LAST delimiter - the prefix ends with it, the rest
+    contains none *)
+Theorem C18_delimiter_prefix : forall w d pre v0, rsplit_delimiter w (Some d) = Some (pre, v0) ->
+  w = pre ++ v0 /\ exists p0, pre = p0 ++ utf8_encode d.
+Proof. exact rsplit_delimiter_some. Qed.
+Print Assumptions C18_delimiter_prefix.
+
+Theorem C18_delimiter_last : forall w d pre v0, rsplit_delimiter w (Some d) = Some (pre, v0) ->
+  forall x y, v0 <> x ++ utf8_encode d ++ y.
+Proof. exact rsplit_delimiter_last. Qed.
+Print Assumptions C18_delimiter_last.
+
+(** the word [--flag=<word>]: the candidates are [--flag=] + the value candidates of the argument whose
+    LONG NAME is [flag] (both directions) *)
+Theorem C18_long_value_sound : forall tbl c flag v l y,
+  flag <> [] -> ~ In EQ flag -> utf8_valid flag = true ->
+  complete_option tbl (dd ++ flag ++ EQ :: v) c = COk l -> In y l ->
+  exists a lv y0, List.find (has_long flag) (c_args c) = Some a /\
+    complete_arg_value tbl v a = Some lv /\ In y0 lv /\ y = add_prefix (dd ++ flag ++ [EQ]) y0.
+Proof. exact long_value_sound. Qed.
+Print Assumptions C18_long_value_sound.
+
+Theorem C18_long_value_complete : forall tbl c pi flag w l a pvs v pre v0,
+  complete_arg tbl (dd ++ flag ++ EQ :: w) c pi ValueDone = COk l ->
+  flag <> [] -> ~ In EQ flag -> utf8_valid flag = true ->
+  List.find (has_long flag) (c_args c) = Some a ->
+  possible_values tbl a = Some (Some pvs) -> In (v, false) pvs ->
+  utf8_valid v0 = true -> is_prefix v0 v = true ->
+  (pre = [] /\ v0 = w /\ rsplit_delimiter w (a_delim a) = None
+   \/ rsplit_delimiter w (a_delim a) = Some (pre, v0)) ->
+  In (mkCand ((dd ++ flag ++ [EQ]) ++ pre ++ v) None false) l.
+Proof. exact value_done_complete_long_value. Qed.
+Print Assumptions C18_long_value_complete.
+
+(** ... long names only: behind a visible alias [--alias=<TAB>] offers nothing although [--alias <TAB>]
+    offers the values (complete.rs: [a.get_long() == Some(flag)]) *)
+Theorem C18_long_alias_value_refuted : exists tbl c a alias v,
+    In a (c_args c) /\ In alias (vis_aliases (a_aliases a)) /\
+    possible_values tbl a = Some (Some [(v, false)]) /\
+    complete_arg_value_done tbl (dd ++ alias ++ [EQ]) c 1 = COk [] /\
+    start_walk c [[112]; dd ++ alias; []] 2 = WAt [] c 1 (Opt a 1) false /\
+    complete_arg tbl [] c 1 (Opt a 1) = COk [mkCand v None false].
+Proof. exact long_alias_value_refuted. Qed.
+Print Assumptions C18_long_alias_value_refuted.
